@@ -104,7 +104,16 @@ def callable_kernel_lin2(X, Y=None):
     return 0.5 * (np.asarray(X) @ np.asarray(Y).T) + 1.0
 
 
-CALLABLES = {"cb_rbf": callable_kernel_rbf, "cb_lin2": callable_kernel_lin2}
+def callable_kernel_centred(X, Y=None):
+    """Centred linear Gram matrix: its entries depend on the whole sample set it is computed on (like a median-heuristic
+    bandwidth would) - the block of the full matrix is NOT the matrix of the block."""
+    X = np.asarray(X, dtype=float)
+    Y = X if Y is None else np.asarray(Y, dtype=float)
+    mu = Y.mean(0, keepdims=True)
+    return (X - mu) @ (Y - mu).T + 0.1
+
+
+CALLABLES = {"cb_rbf": callable_kernel_rbf, "cb_lin2": callable_kernel_lin2, "cb_centred": callable_kernel_centred}
 
 
 def sym_matrix(rng, n, kind="psd"):
